@@ -19,7 +19,7 @@ def infeasible(ctx, n):
     for ap in base:
         ap = copy.deepcopy(ap)
         leaves = [(p, nd) for p, nd in projects.walk(ap["tasks"]) if "kids" not in nd]
-        k = rng.randint(0, 8)
+        k = rng.randint(0, 9)
         p, nd = rng.choice(leaves)
         rleaf = [r["id"] for _, r in projects.walk(ap["resources"]) if "kids" not in r]
         if "effort" in nd and len(nd.get("alloc", [])) == 1 and nd["alloc"][0] in rleaf and len(rleaf) >= 2 and rng.random() < 0.4:
@@ -38,7 +38,7 @@ def infeasible(ctx, n):
                 nd["alloc"] = ["idle"]
                 nd.pop("alt", None)
         elif k == 4 and "effort" in nd:          # huge effort
-            nd["effort"] = rng.choice([60 * 2000, 60 * 700])
+            nd["effort"] = rng.choice([60 * 2000, 60 * 700, 60 * 99999999, 60 * 5000])
         elif k == 5 and leaves:                  # huge gap
             q, nq = rng.choice(leaves)
             if q != p:
@@ -49,6 +49,20 @@ def infeasible(ctx, n):
             nd.pop("start", None)
         elif k == 7 and "effort" in nd:          # tiny effort
             nd["effort"] = 1
+        elif k == 9 and "effort" in nd:
+            # a task that must not be split across breaks, equipment with efficiency 0 (first or second in the
+            # allocation), a horizon that ends inside working hours
+            nd["contiguous"] = True
+            if rng.random() < 0.5:
+                ap["start"] += rng.choice([9, 13]) * 3600
+            rnodes = [r for _, r in projects.walk(ap["resources"]) if "kids" not in r]
+            if rnodes and rng.random() < 0.6:
+                z = rng.choice(rnodes)
+                z["eff"] = "0.0"
+                if z["id"] in rleaf and rng.random() < 0.7:
+                    others = [x for x in nd.get("alloc", []) if x != z["id"] and x in rleaf]
+                    nd["alloc"] = [z["id"]] + others[:1] if rng.random() < 0.6 else others[:1] + [z["id"]]
+                    nd.pop("alt", None)
         elif k == 8 and "effort" in nd and not ap.get("alap") and not nd.get("sched"):
             # work pinned so late that it cannot finish before the end of the horizon
             hor = {"w": 7, "d": 1}[ap["dur"][0]] * ap["dur"][1]
@@ -124,7 +138,7 @@ def run(ctx):
         violations.append({"no_input": True, "replay": common.write_replay(ctx, {"property": "C11", "kind": "proof obligation no longer checks; no failing input found", "failing_obligations": failing})})
     cov = {"obligations": nob, "discharged": ndis, "checker_cmd": "tools/coqbuild.sh (coqc 8.16.1 full .vo build)", "trusted_base": common.TRUSTED, "files": files,
            "traces_validated_against_impl": len(aps) + len(texts), "input_distribution": dict(stats),
-           "rule": "grammatical infeasible projects (cycles, self-dependencies, pinned dates before/after the horizon, never-working resources, huge and one-minute efforts, huge gaps, ALAP deadlines outside the horizon, work pinned too close to the end of the horizon, alternatives on the infeasible task, resource groups in allocations) in isolated workers with a time limit; corrupted variants (token deletion, duplication, swap, replacement) of valid texts: the outcome must be a result or a parse error. The fault-injection part is testing and is labelled so: Lark, the transformer and Python exceptions outside slot indexing are not modelled.",
+           "rule": "grammatical infeasible projects (cycles, self-dependencies, pinned dates before/after the horizon, never-working resources, huge and one-minute efforts, huge gaps, ALAP deadlines outside the horizon, work pinned too close to the end of the horizon, alternatives on the infeasible task, resource groups in allocations, 'flags contiguous', resources with efficiency 0, horizons ending inside working hours, efforts of 99999999h) in isolated workers with a time limit; corrupted variants (token deletion, duplication, swap, replacement) of valid texts: the outcome must be a result or a parse error. The fault-injection part is testing and is labelled so: Lark, the transformer and Python exceptions outside slot indexing are not modelled.",
            "samples": [{"family": aps[0]["_family"], "project": projects.render(aps[0])[:1000]}, {"malformed": texts[0][:400]}]}
     common.finish(ctx, "proof", cov, violations,
                   ["partial: the theorems cover termination of the model (structural fuel) and that no slot outside the horizon is touched; everything in front of the scheduler (Lark, transformer) is exercised by fault injection only"])
